@@ -210,10 +210,20 @@ CURATED = [
     'O=c1oc2ccccc2cc1', 'O=c1ccc2ccccc2o1', 'O=c1[nH]cnc2[nH]cnc12', 'Nc1nc2[nH]cnc2c(=O)[nH]1', 'Nc1ccn(C)c(=O)n1',
     # unsaturated four-membered rings (recorded gap for the enumeration clause)
     'c1ccc2c(c1)c1ccccc21', 'c1ccc2c(c1)-c1ccccc1-2', 'C1=CC2=C(C=C1)C1=CC=CC=C21', 'C1=CC2=CC=C2C=C1', 'C1=CC=C2C(=C1)C1=CC=CC=C21', 'c1ccc2c(c1)CC2',
+]
+
+# atom states the recorded findings are about (known_findings.d/C05.json), kept so that they stay observed
+FINDING_INPUTS = ['Cp1cccn1', 'C[as]1cccn1', 'C[b-]1(C)cccn1', '[cH-]1cccn1', '[c-]1ccncc1', '[nH+]1ccncc1', '[bH-]1ccncc1', 'c1cpccp1', 'b1cnncn1',
+                  '[se+]1cccnc1', '[te+]1cccnc1', 'c1cnc[as]c1', 'c1cc[as]cc1']
+
+MALFORMED = [
     # mis-drawn / malformed
     'c1ccc-cc1', 'c1ccc=cc1', 'c1cccc1', 'cc', 'c1ccc#cc1', 'c1ccc2c1c3ccccc3cc2', '[n]1cccc1', 'c1cc[nH+]c1', '[n+]1ccccc1', '[nH]1ccccc1', 'c1cccc1C(=O)c1cccc1',
     'c1ccccc1c1ccccc1c1ccccc1', 'C#Cc1ccccc1', 'c1cc[o]c1', 'c1cc[oH+]c1', 'c1ccc[n+]c1', 'c1cc[s-]c1',
     'c1cc[siH]c1', 'c1cc[asH]c1', 'C=c1cccc1', 'c1ccc(=c2cccc2)c1', 'O=c1cc1', 'c1cc1', 'c1ccc1', 'c1cccccc1', 'c1ccccccc1', 'Cn1(C)cccc1',
+]
+
+KEKULE_SPELLED = [
     # Kekule spellings that thiele aromatises
     'C1=CNC=C1', 'C1=COC=C1', 'C1=CSC=C1', 'C1=CC=NC=C1', 'C1=CC=C2NC=CC2=C1', 'N1C=CC2=NC=CC2=C1', 'N1C=CN2C=CC=C12', 'O=C1C=CC(=O)C=C1', 'O=C1C=CNC=C1', 'C1=C[Se]C=C1',
     'C1=CC=C[CH-]1', 'C1=CC=[NH+]C=C1', 'C1=CC=[O+]C=C1', 'C1=CBC=C1', 'C1=CC=PC=C1', 'C1=CC=C2C=CC=CC2=C1', 'C1=CC=CC=CC=C1', 'C1=CC=CC=CC1', 'C1=CC=BC=C1',
@@ -303,7 +313,8 @@ def load_inputs(ck):
     from chython import smiles, SDFRead
     rng = random.Random(f'{ck.seed}:c05:inputs')
     quick = ck.tier == 'quick'
-    items = [('curated', s) for s in dict.fromkeys(CURATED)]
+    items = [('curated', s) for s in dict.fromkeys(CURATED + KEKULE_SPELLED + FINDING_INPUTS)]
+    items += [('malformed', s) for s in dict.fromkeys(MALFORMED)]
     items += generated(rng, 72 if quick else 600)
     try:
         with open(os.path.join(common.REPO, 'test/heterocycles_charges.smi')) as f:
@@ -557,10 +568,16 @@ class Pipe:
 
         # ---- stage 2: kekule()
         k = m0.copy()
+        warm(k)
         try:
             ret = k.kekule()
         except InvalidAromaticRing:
             ck.count(f'kekule:InvalidAromaticRing:{kind}' + (':inside-domain' if dom else ''))
+            if dom and aromatic_input and kind in ('curated', 'lipophilicity', 'heterocycles_charges.smi', 'arenes.sdf'):
+                # hand-picked and corpus molecules that RDKit kekulizes and whose RDKit Kekule spelling chython's own valence
+                # rules accept: a refusal is a lost molecule (generated exotic rings are only counted)
+                self.bad(True, f'kekule-refuses:{smi}', 'kekule() raises InvalidAromaticRing on a ring system that has a valence-clean Kekule form (RDKit\'s)', label,
+                         'InvalidAromaticRing', 'a Kekule form', 'RDKit Kekulize + chython valence rules on its spelling', code_of('m.kekule()'))
             if prep_raises:
                 cases.append((f'driver_raises g{i} r{i}', ('driver raises', label, list(m0._atoms)), 'prep'))
             cs.add(defs, cases)
@@ -574,6 +591,10 @@ class Pipe:
             self.bad(True, f'kekule-after-prepare-raise:{smi}', '__prepare_rings raises but kekule() returned', label, ret, 'InvalidAromaticRing', 'control flow',
                      code_of('print(m.kekule())'))
         ck.count(f'kekule:returned-{ret}')
+        stale = stale_views(k)
+        if stale:
+            self.bad(True, f'kekule-stale-cache:{stale[0]}', f'after kekule() the cached view {stale[0]} is not that of the converted molecule', label, stale[1], stale[2],
+                     'the same view of a fresh copy (rebuilt cache)', code_of('str(m); m.sssr; m.kekule(); print(str(m), str(m.copy()))'))
         defs.append(f'Definition k{i} := {mol_t(k)}.')
         src = f'(repair g{i} r{i})' if misdrawn else f'g{i}'
         code = code_of('h0=[a.implicit_hydrogens for _,a in m.atoms()]; m.kekule(); print(m, h0, [a.implicit_hydrogens for _,a in m.atoms()], m.check_valence())')
@@ -628,6 +649,7 @@ class Pipe:
 
         # ---- stage 3: thiele() of the Kekule form
         a = k.copy()
+        warm(a)
         try:
             rt_ = a.thiele()
         except Exception as e:
@@ -636,6 +658,10 @@ class Pipe:
             cs.add(defs, cases)
             return None
         ck.count(f'thiele:returned-{rt_}')
+        stale = stale_views(a)
+        if stale:
+            self.bad(True, f'thiele-stale-cache:{stale[0]}', f'after thiele() the cached view {stale[0]} is not that of the converted molecule', label, stale[1], stale[2],
+                     'the same view of a fresh copy (rebuilt cache)', code_of('m.kekule(); str(m); m.sssr; m.thiele(); print(str(m), str(m.copy()))'))
         defs.append(f'Definition a{i} := {mol_t(a)}.')
         tcode = code_of('m.kekule(); h0=[a.implicit_hydrogens for _,a in m.atoms()]; print(m); m.thiele(); print(m, h0, [a.implicit_hydrogens for _,a in m.atoms()])')
         s0, s1 = snap(k), snap(a)
@@ -659,7 +685,7 @@ class Pipe:
         if refused:
             cands = [n for n in refused if a._atoms[n].atomic_number != 6] or refused
             c_ = max(cands, key=lambda n: (before._atoms[n].neighbors, before._atoms[n].atomic_number))
-            why_not = f'not-rearomatised:{atom_state(before._atoms[c_])}'
+            why_not = f'not-rearomatised:{before._atoms[c_].atomic_symbol}'
         self.why_not = why_not
         # fixpoint of thiele . kekule
         x = a.copy()
@@ -717,7 +743,7 @@ class Pipe:
         if four:
             key, what = 'aromatic-form-not-unique:unsaturated-4-ring-system', what + ' (ring system with an unsaturated four-membered ring, biphenylene type)'
         elif why_not:
-            key, what = why_not, what + ' (kekule() accepts the ring as aromatic, thiele() does not aromatise it again: ' + why_not.split(':', 1)[1] + ')'
+            key, what = why_not, what + ' (kekule() accepts the ring as aromatic, thiele() does not aromatise it again: ring atom ' + why_not.split(':', 1)[1] + ')'
         self.bad(clean, key, what, label, observed, expected, oracle, code, extra)
 
     def forms(self, i, which, src_m, src_name, rel_src, sa, label, clean, full, defs, cases, tag, code_of, prep_code, k, why_not):
@@ -863,6 +889,46 @@ def same_structure(s1, s2):
         return True
     c1, c2 = kekule_level_canon(s1), kekule_level_canon(s2)
     return c1 is not None and c1 == c2
+
+
+VIEWS = (('str', str), ('aromatic_rings', lambda m: sorted(map(tuple, m.aromatic_rings))), ('brutto', lambda m: sorted(m.brutto.items())),
+         ('hybridization', lambda m: [a.hybridization for _, a in m.atoms()]), ('rings_count', lambda m: m.rings_count))
+
+
+def hybridization_of(nb):
+    """1 = sp3, 2 = sp2, 3 = sp, 4 = aromatic, from the orders of the bonds of one atom (order 8 does not count)"""
+    orders = [int(bd) for bd in nb.values() if int(bd) != 8]
+    if 4 in orders:
+        return 4
+    if 3 in orders or orders.count(2) >= 2:
+        return 3
+    return 2 if 2 in orders else 1
+
+
+def warm(m):
+    """fill the caches a conversion has to flush"""
+    for _, f in VIEWS:
+        try:
+            f(m)
+        except Exception:
+            pass
+
+
+def stale_views(m):
+    """a cached view of the converted molecule that differs from the view of a fresh copy (whose cache is empty)"""
+    fresh = m.copy()
+    hyb = [hybridization_of(nb) for nb in m._bonds.values()]       # the label, recomputed from the bond orders as they are now
+    got = [a.hybridization for _, a in m.atoms()]
+    if hyb != got:
+        return 'hybridization label', repr(got)[:200], repr(hyb)[:200]
+    for name, f in VIEWS:
+        try:
+            v1, v2 = f(m), f(fresh)
+        except Exception:
+            continue
+        if v1 != v2:
+            return name, repr(v1)[:200], repr(v2)[:200]
+    return None
 
 
 def smiles_of(label):
@@ -1040,7 +1106,7 @@ def diagnose(rel_failed):
     by_defs = {}
     for c in rel_failed:
         rel, g, g2 = split_rel(c[0])
-        names = ['kr_atoms', 'kr_bonds', 'kr_classes', 'kr_valence', 'kr_h'] if rel.startswith('kekule') else ['tr_atoms', 'tr_bonds', 'tr_doubles', 'tr_h']
+        names = ['kr_atoms', 'kr_bonds', 'kr_classes', 'kr_valence', 'kr_h'] if rel.startswith('kekule') else ['tr_atoms', 'tr_bonds', 'tr_doubles', 'tr_quinone', 'tr_h']
         by_defs.setdefault(c[3], []).extend((f'{nm} {g} {g2}', (id(c), nm), 'diag') for nm in names)
     for d, cases in by_defs.items():
         cs.add([d], cases)
